@@ -239,7 +239,7 @@ def run(ctx):
     jobs = [(ctx.repo, its, M.semantics, b) for (tq, b), its in chunks]
     results = []
     nproc = min(16, os.cpu_count() or 1, max(1, len(jobs)))
-    if nproc > 1 and len(items) > 40:
+    if nproc > 1 and len(items) > 40 and not os.environ.get("VERIF_NO_POOL"):
         with ProcessPoolExecutor(nproc) as ex:
             for r in ex.map(_work, jobs, chunksize=1):
                 results.extend(r)
